@@ -61,19 +61,29 @@ class ProxyReactor(object):
     Every callLater is wrapped so that the executor sees each timer firing (begin/end, name,
     exception) -- the real reactor would log an exception and carry on; we record it."""
 
+    READ_LATE = 2.0 ** -30
+
     def __init__(self):
         self.clock = task.Clock()
         self.sink = None  # object with .timer_begin(name) / .timer_end() / .escape(where, exc)
         self.running = False
+        self.in_pass = False   # set by the harness while it runs delayed calls
 
     # --- harness side
     def reset(self, sink=None):
         self.clock = task.Clock()
         self.sink = sink
+        self.in_pass = False
 
     # --- IReactorTime
     def seconds(self):
-        return self.clock.seconds()
+        # A reactor never runs a delayed call exactly on time: code that *reads* the clock inside one
+        # (LoopingCall computing "time until the next interval") sees it a little past the call's due time;
+        # read exactly on time, that computation can round to a few ulps and fire twice in a row.  Only the
+        # reading is late: new calls are scheduled from the due time, so that no offset accumulates and
+        # the timers of one connection never depend on which other timers happened to run.
+        t = self.clock.seconds()
+        return t + self.READ_LATE if self.in_pass else t
 
     def callLater(self, delay, f, *a, **kw):
         sink = self.sink
